@@ -2,6 +2,7 @@ import SignaloModel.Proofs.BridgeSinks
 import SignaloModel.Proofs.SinksProofs
 import SignaloModel.Proofs.SinkRunning
 import SignaloModel.Proofs.IntMean
+import SignaloModel.Proofs.StatsAgree
 /-!
 # C11 — Statistics sinks finalise to the batch statistic of everything received
 
@@ -10,6 +11,7 @@ The property theorems for C11: `#check` prints each statement, `#print axioms` i
 -/
 open SignaloModel
 
+#check @SignaloModel.SinkModels.statistics_agrees
 #check @SinkModels.mean_exact
 #check @SinkModels.sk_mean_exact
 #check @SinkModels.collect_finalize
@@ -41,6 +43,7 @@ open SignaloModel
 #check @SinkModels.finalize_empty
 #check @Sinks.winv_step
 
+#print axioms SignaloModel.SinkModels.statistics_agrees
 #print axioms SinkModels.mean_exact
 #print axioms SinkModels.sk_mean_exact
 #print axioms SinkModels.collect_finalize
